@@ -1,6 +1,8 @@
 #![allow(dead_code)]
 mod alphabet;
 mod checks;
+mod ehttp;
+mod epayload;
 mod eseq;
 mod esweep;
 mod http;
